@@ -2,7 +2,7 @@
 //
 // Engine E2 (enumx), differential oracle. A *logical trace* is a tuple of 1–3 spans (span 0 is the root,
 // the others are children) each carrying one field "n" whose value is drawn from
-// {int 200, int -1, int 1500000, float 1.5, float 2.0, "x", true}. Every logical trace is pushed through the REAL
+// {int 200, int -1, int 1500000, float 1.5, float 2.0, "x", true, null}. Every logical trace is pushed through the REAL
 // routers of an in-process node (fix/pipeline) into a REAL InMemCollector (fix/nodecoll, handler mode) in
 // every arrival order and with every per-span choice of wire encoding (JSON event, JSON batch, msgpack
 // batch / msgpack event with signed or unsigned, minimal or fixed-width integers and 32/64-bit floats,
@@ -67,6 +67,7 @@ var values = []lval{
 	{Name: "float2.0", Kind: "float", F: 2.0},
 	{Name: "str-x", Kind: "str", S: "x"},
 	{Name: "true", Kind: "bool", B: true},
+	{Name: "null", Kind: "nil"}, // a field that is present with a null value (JSON null / msgpack nil; OTLP has no such attribute)
 }
 
 // ---------------------------------------------------------------------------------------------
@@ -150,6 +151,9 @@ func encodings(v lval, level int) []enc {
 	}
 	var out []enc
 	add := func(path string, vs []variant, peer bool) {
+		if v.Kind == "nil" && strings.HasPrefix(path, "otlp") {
+			return
+		}
 		for _, x := range vs {
 			out = append(out, enc{Path: path, Lead: x.lead, F32: x.f32, ViaPeer: peer})
 		}
@@ -196,6 +200,8 @@ func wireValue(v lval, e enc) codec.Value {
 		return codec.F64(v.F)
 	case "str":
 		return codec.Str(v.S)
+	case "nil":
+		return codec.Nil()
 	}
 	return codec.Bool(v.B)
 }
@@ -318,7 +324,6 @@ func (w *worker) close() {
 	w.a.Close()
 	w.b.Close()
 }
-
 
 // presentation of one logical trace
 type presentation struct {
@@ -581,7 +586,7 @@ type failing struct {
 
 func main() {
 	r := ev.New("C09", "exploration")
-		if pf := os.Getenv("VERIF_PROF"); pf != "" { // development aid: CPU profile of the enumeration
+	if pf := os.Getenv("VERIF_PROF"); pf != "" { // development aid: CPU profile of the enumeration
 		f, _ := os.Create(pf)
 		pprof.StartCPUProfile(f)
 		defer pprof.StopCPUProfile()
